@@ -246,6 +246,12 @@ def verbatim_tokens(symbol):
     return [BDAGB if w == "\0" else w for w in symbol.replace(BDAGB, "\0").split(" ")]
 
 
+def ambiguous(words):
+    """the documented grammar (simple symbols separated by one space, 'b^\\dagger + b' being ONE simple symbol) cannot spell
+    this sequence of simple symbols unambiguously, e.g. 'b^\\dagger', '+' (spin raising), 'b' or 'b^\\dagger', '+', 'b^\\dagger'"""
+    return verbatim_tokens(" ".join(words)) != list(words)
+
+
 class Ctx:
     """per-case harness state: basis list, DoF -> (site, local index), single-symbol local matrices."""
 
@@ -438,7 +444,7 @@ class C15(Prop):
                    "complex local matrices are accompanied by complex-typed factors (DESIGN 3.1)",
                    "algebra identities: 1e-11*scale (rounding only); Mpo: 1e-9*scale (Hopcroft-Karp), 1e-7*scale + 1e-10*#terms*#sites*max||term|| "
                    "(QR: library cuts 1e-10 relative on R and 1e-10 absolute on Q; QR only when every |factor| >= 1e-6), scale = "
-                   "sum|c_k|*prod||single-symbol matrices||; OpSum / np.float32: 2e-7*scale (1/c is rounded to float32 by NumPy); simplify(atol): (#terms)*atol*max prod||.|| + 1e-11*scale",
+                   "sum|c_k|*prod||single-symbol matrices||; OpSum / np.float32: 2e-6*scale (1/c is rounded to float32 by NumPy); simplify(atol): (#terms)*atol*max prod||.|| + 1e-11*scale",
                    "refusal of an invalid operand = TypeError, ValueError or a deliberate assert (AssertionError)",
                    "0-d NumPy arrays are treated as scalar-like operands outside the must-succeed domain: the library may refuse "
                    "them, but if it returns a result that result must denote the scalar multiple"]
@@ -453,13 +459,17 @@ class C15(Prop):
         # operator without any identity factor comes back != itself (and with another hash)
         "F53": lambda spec, sig, msg: sig == "squeeze.no_identity.respells_bdagger_plus_b"
         and any(s["k"] == "sho" for s in spec["model"]["sites"]),
+        # the symbol grammar is ambiguous: 'b^\\dagger' '+' 'b...' written next to each other (product of valid Ops, or after
+        # squeeze_identity removed an 'I' between them) is parsed as the simple symbol 'b^\\dagger + b' -> ValueError
+        "F54": lambda spec, sig, msg: sig == "grammar.bdagger_plus_b_ambiguity"
+        and any(s["k"] == "sho" for s in spec["model"]["sites"]) and any(s["k"] == "spin" for s in spec["model"]["sites"]),
         # BasisMultiElectronVac.op_mat('I I' on one site) ignores op.factor -> Mpo of such a term is wrong
         "F52": lambda spec, sig, msg: sig == "tiein.multi_electron_identity_factor_dropped"
         and any(s["k"] == "mvac" for s in spec["model"]["sites"]),
     }
 
     def budget(self, tier):
-        return dict(examples=2000, shards=8) if tier == "quick" else dict(examples=100000, shards=16)
+        return dict(examples=2000, shards=8) if tier == "quick" else dict(examples=80000, shards=16)
 
     def strategy(self, tier):
         return programs(tier)
@@ -514,9 +524,16 @@ class _Run:
         except Exception as e:  # noqa
             return None, e
 
-    def refused_or_fail(self, name, e, ok_expected, what):
-        """classify an exception raised by a library operation."""
+    def refused_or_fail(self, name, e, ok_expected, what, amb=None):
+        """classify an exception raised by a library operation.  ``amb``: callable telling whether the symbol string the
+        operation has to build is ambiguous under the documented grammar (evaluated only when needed)."""
         sig, in_lib = lib_exception_sig(e)
+        if ok_expected and amb is not None and isinstance(e, (ValueError, AssertionError)) and sig.endswith("op.py:__init__") and amb():
+            self.r.fail("grammar.bdagger_plus_b_ambiguity",
+                        f"{what}: valid operands, but the joined symbol string is parsed as containing the simple symbol "
+                        f"'b^\\dagger + b' -> {rp(e)}")
+            self.cls.add("F54.region_hit")
+            return
         if ok_expected:
             self.r.fail(f"{name}.{sig}", f"{what}: in-domain operation raised {rp(e)}")
             return
@@ -622,7 +639,8 @@ class _Run:
             dofarg = list(dofs)
         obj, e = self.call(Op, symbol, dofarg, f, qn)
         if e is not None:
-            self.refused_or_fail("lit", e, True, f"Op({rp(symbol)}, {rp(dofarg)}, {rp(f)}, {rp(qn)})")
+            self.refused_or_fail("lit", e, True, f"Op({rp(symbol)}, {rp(dofarg)}, {rp(f)}, {rp(qn)})",
+                                 amb=lambda: ambiguous([w for _, w, _ in words]))
             return
         m, n = ctx.den_words(words)
         g = self.den_check("lit", obj, fval * m, abs(fval) * n, what=f"Op({rp(symbol)}, {rp(dofarg)}, {rp(f)}, qn={rp(qn)})")
@@ -700,7 +718,9 @@ class _Run:
         fn = {"add": operator.add, "sub": operator.sub, "mul": operator.mul, "iadd": operator.iadd}[op]
         res, e = self.call(fn, a.obj, b.obj)
         if e is not None:
-            self.refused_or_fail(name, e, ok_exp, f"{a.kind} {op} {b.kind}")
+            self.refused_or_fail(name, e, ok_exp, f"{a.kind} {op} {b.kind}",
+                                 amb=(lambda: any(ambiguous(verbatim_tokens(x.symbol) + verbatim_tokens(y.symbol)) for x in A for y in B))
+                                 if op == "mul" else None)
             self.unchanged(name, before)
             return
         if op == "mul":
@@ -777,7 +797,7 @@ class _Run:
         lenient = "" if ok_exp else f".lenient.{sk}"
         # OpSum / c is documented as  self * (1/c) : with a float32 divisor 1/c is rounded to float32 (rel. 2**-24 = 6e-8);
         # this is NumPy's arithmetic for the operand type the caller chose, not a defect of the algebra
-        extra = 2e-7 * scale if (op == "div" and sk == "np.float32") else 0.0
+        extra = 2e-6 * scale if (op == "div" and sk == "np.float32") else 0.0
         g = self.den_check(name + (".float32" if extra else "") + lenient, res, ref, scale, extra_tol=extra, what=f"{a.kind} {op} {rp(c)}",
                            rebase=bool(extra))
         self.unchanged(name, before)
@@ -875,7 +895,11 @@ class _Run:
         before = [(g, snap(g.obj)) for g in gs]
         res, e = self.call(fn, [g.obj for g in gs])
         if e is not None:
-            self.refused_or_fail(name, e, True, f"{name}({[g.kind for g in gs]})")
+            def amb():
+                import itertools
+                return any(ambiguous([w for t in combo for w in verbatim_tokens(t.symbol)])
+                           for combo in itertools.product(*[g.terms() for g in gs]))
+            self.refused_or_fail(name, e, True, f"{name}({[g.kind for g in gs]})", amb=amb)
             return
         ref, scale = gs[0].ref, gs[0].scale
         exp = [struct(t) for t in gs[0].terms()]
@@ -925,7 +949,8 @@ class _Run:
                             f"OpSum.simplify({atol}) on terms with {T[0].qn_size} quantum-number components and an identity factor: {rp(e)}")
                 self.cls.add("F5.region_hit")
             else:
-                self.refused_or_fail("simplify", e, True, f"simplify(atol={atol}) of {rp(T)}"[:400])
+                self.refused_or_fail("simplify", e, True, f"simplify(atol={atol}) of {rp(T)}"[:400],
+                                     amb=lambda: any(ambiguous([w for w in verbatim_tokens(t.symbol) if w != "I"]) for t in T))
             return
         _, _, mx = self.ctx.den_terms(T) if T else (None, None, 0.0)
         bound = len(T) * float(atol) * mx
@@ -1014,7 +1039,8 @@ class _Run:
                             f"{rp(t)}.squeeze_identity() ({t.qn_size} quantum-number components, identity factor): {rp(e)}")
                 self.cls.add("F5.region_hit")
             else:
-                self.refused_or_fail("squeeze", e, True, f"{rp(t)}.squeeze_identity()")
+                self.refused_or_fail("squeeze", e, True, f"{rp(t)}.squeeze_identity()",
+                                     amb=lambda: ambiguous([w for w in verbatim_tokens(t.symbol) if w != "I"]))
             return
         m, n = self.ctx.den_words(self.ctx.words_of(t))
         f = complex(t.factor)
@@ -1142,7 +1168,8 @@ class _Run:
             mk = lambda: Op(t.symbol, dv, 1.0, qv) * fv if not isinstance(fv, Quantity) else Op(t.symbol, dv, fv, qv)
         tw, e = self.call(mk)
         if e is not None:
-            self.refused_or_fail(f"twin.route{route}", e, True, f"equal-by-another-route construction of {rp(t)}")
+            self.refused_or_fail(f"twin.route{route}", e, True, f"equal-by-another-route construction of {rp(t)}",
+                                 amb=lambda: ambiguous(list(words)))
             return
         what = f"{rp(t)} vs twin (route {route}, factor {rp(fv)}, qn {rp(qv)}) {rp(tw)}"
         res, e = self.call(lambda: (t == tw, tw == t, t != tw, hash(t) == hash(tw), len({t, tw}), t.same_term(tw)))
